@@ -16,7 +16,10 @@ Recipes: the pool recipes use `loader` / `dumper` guarded by one or several type
 `enum_by_exact_value` with 0..3 predicates (`bound_by_any`), all modelled; `c11_recipes.py` (real code only) runs
 histories over retorts built from every public provider factory in all its argument forms and compares every call
 with a never-used retort built from fresh provider objects (state kept inside a recipe object is shared by a retort
-and its replace()/extend() clones).
+and its replace()/extend() clones); `c11_recursion.py` (real code only) runs histories in which a request for a
+recursive type FAILS (a member nothing can load / dump) and the retort is then asked for the containers, enclosing
+models and field types that reach the same locations - what a failed request leaves behind (recursion stubs) must not
+be served later.
 """
 
 import collections.abc
@@ -28,7 +31,7 @@ from typing import Annotated, Dict, List, Literal, NewType, Optional, Sequence, 
 
 from extract.c11_sites import extract_c11_sites
 from harness.core import Ctx, Driver, InfraError, canon
-from harness.props import c11_recipes
+from harness.props import c11_recipes, c11_recursion
 
 ID = "C11"
 CLAIM = {
@@ -61,7 +64,10 @@ CLAIM = {
         "key_sound. In the model a recipe entry is immutable data; that the provider objects of the real recipe "
         "(shared by a retort and its clones) keep no state between requests is established only by testing: the "
         "cache-run correspondence on multi-predicate recipes and the real-only recipe-state histories over every "
-        "public provider factory. Holds for the tree with fixes/C11-literal-cache-key.patch, fixes/C12-stub-identity.patch, "
+        "public provider factory. The model keeps the recursion stubs per top-level request (as the code does: the "
+        "resolver is created per facade call, which facade_caches_covered now pins down together with the statements "
+        "of track_request / track_response); that nothing of a FAILED request for a recursive type survives in the "
+        "retort is additionally tested on the real code by the rec-history suite. Holds for the tree with fixes/C11-literal-cache-key.patch, fixes/C12-stub-identity.patch, "
         "fixes/C15-union-order-total.patch and fixes/C15-literal-dedup.patch applied."
     ),
     "design_ref": "DESIGN.md §4 C11",
@@ -77,7 +83,10 @@ RULE = ("a case is a history of facade calls over the pool; quick: every sequenc
         "whose entries carry several predicates, random recipes with 0..3 predicates per entry, and (real code only) "
         "recipe-state histories: every public provider factory x every number of predicates it accepts x "
         "{no clone, replace, extend}, plus random recipes / histories; non-trivial there: a provider guarded by "
-        "several predicates or a clone")
+        "several predicates or a clone; and (real code only) rec-history: five recursive families with a member "
+        "nothing can load / dump x recipes {plain, member bound below one enclosing model} x {every hint first then a "
+        "sweep, a failing request then one other, random histories} over get_loader / load / get_dumper / dump; "
+        "non-trivial there: a request for a type of the recursive cluster has failed and further calls follow")
 ASSUMPTIONS = [
     "equal objects hash equal for every key component (validated on the pool by the hint-eq suite)",
     "closure identity is modelled as equality of closure terms: two closures are the same object iff they were "
@@ -1409,6 +1418,7 @@ def run(ctx: Ctx):
     wide_suite(ctx, pool, real, ctx.budget(250, 4000), directed=True)
     closure_state_suite(ctx, ctx.budget(90, 1500))
     c11_recipes.recipe_state_suite(ctx, ctx.budget(50, 1500), per_form=ctx.budget(1, 3))
+    c11_recursion.rec_history_suite(ctx, ctx.budget(60, 800), pair_share=ctx.budget(16, 3))
     ctx.extra["exhaustive"] = False
     ctx.extra["exhaustive_part"] = (f"every sequence of <= {max_len} get_loader (resp. get_dumper) requests over the "
                                     f"{len(Pool.CORE)}-hint core pool, each followed by a probe sweep over the core pool")
@@ -1444,6 +1454,8 @@ def search(ctx: Ctx):
     if not ctx.failures:
         closure_state_suite(ctx, 1000)
     if not ctx.failures:
+        c11_recursion.rec_history_suite(ctx, 1500, pair_share=2, stop_on_failure=True)
+    if not ctx.failures:
         c11_recipes.recipe_state_suite(ctx, 1500, per_form=3, stop_on_failure=True)
 
 
@@ -1462,6 +1474,8 @@ def replay(ctx: Ctx, case) -> bool:
         Wide(pool).check(ctx, real, case, count=False)
     elif suite == "recipe-state":
         return c11_recipes.replay(ctx, case)
+    elif suite == "rec-history":
+        return c11_recursion.replay(ctx, case)
     elif suite == "wide-norm":
         w = Wide(pool)
         if real.raw_norm(w.hints[case["a"]]) != real.raw_norm(w.hints[case["b"]]):
